@@ -1,6 +1,6 @@
 #!/bin/sh
-# usage: tools/try_seed.sh Cxx [seed-dir-name]   -- validate a seeded change and run the check against it
-P=$1; WT=/tmp/seed-${2:-$P}; OUT=/verif/seeded/${2:-$P}
+# usage: tools/try_seed.sh Cxx [name under seeded/] [worktree]   -- validate a seeded change and run the check against it
+P=$1; WT=${3:-/tmp/seed-${2:-$P}}; OUT=/verif/seeded/${2:-$P}
 mkdir -p $OUT
 cp $WT/SEED/patch.diff $WT/SEED/demo.py $WT/SEED/meta.json $OUT/ 2>/dev/null
 echo "== demo on changed tree (expect exit 1)"; (cd /tmp && HOME=$WT/.home timeout 900 /venv/bin/python $OUT/demo.py $WT > $OUT/demo_changed.log 2>&1; echo "rc=$?" | tee $OUT/demo_changed.rc); tail -3 $OUT/demo_changed.log
